@@ -233,7 +233,7 @@ def to_micheline(t, v, mode="readable") -> Any:
                 for k, x in v]
     if p == "key_hash":
         return {"bytes": v.hex()} if opt else {"string": pkh_str(v)}
-    if p in ("address", "contract"):
+    if p in ("address", "contract", "tx_rollup_l2_address"):
         return {"bytes": (v[0] + v[1].encode()).hex()} if opt else {"string": addr_str(v)}
     if p == "key":
         return {"bytes": v.hex()} if opt else {"string": key_str(v)}
@@ -329,7 +329,7 @@ def from_micheline(t, e) -> Any:
                     raise Malformed("key_hash bytes")
                 return b
             return pkh_bytes(e["string"])
-        if p in ("address", "contract"):
+        if p in ("address", "contract", "tx_rollup_l2_address"):
             if "bytes" in e:
                 b = bytes.fromhex(e["bytes"])
                 if len(b) < 22:
